@@ -164,6 +164,7 @@ thread_local! {
 pub fn nested_parses_done() -> usize {
     NESTED_COUNT.with(|c| c.get())
 }
+pub const NESTED_TEXTS: &[&str] = &["", "a", "a b", "(a)", "b+b", "é x", "  zz"];
 fn nested_parse() {
     let Some(targets) = NESTED_TARGETS.get() else { return };
     if targets.is_empty() {
@@ -173,9 +174,8 @@ fn nested_parse() {
         c.set(c.get() + 1);
         c.get()
     });
-    const TEXTS: &[&str] = &["", "a", "a b", "(a)", "b+b", "é x", "  zz"];
     let parse = targets[k % targets.len()];
-    let text = TEXTS[k % TEXTS.len()];
+    let text = NESTED_TEXTS[k % NESTED_TEXTS.len()];
     let keep = CTX_CALLS.with(|c| c.borrow().len());
     let _ = verif_core::util::catch(|| parse(text, MODE_PLAIN, 0));
     CTX_CALLS.with(|c| c.borrow_mut().truncate(keep));
